@@ -429,12 +429,18 @@ Definition rx_small_src (p : rxpat) : bytes :=
   | RxDigits => [94; 92; 100; 43; 36]
   end.
 
-(* strconv.Atoi with the error dropped: 0 on a syntax error, the clamped value on a range error *)
+(* strconv.Atoi with the error dropped.  ParseUint scans left to right and stops at the FIRST of:
+   a non-digit (syntax error: result 0) or the accumulated value exceeding 2^64-1 (range error:
+   the clamped value - whatever follows is not looked at).  A value that fits 64 bits is then
+   clamped to the int64 range by ParseInt. *)
 Open Scope Z_scope.
-Fixpoint digits_val (s : bytes) (acc : Z) : option Z :=
+Fixpoint scan_uint (s : bytes) (acc : Z) : option Z :=
   match s with
   | [] => Some acc
-  | c :: r => if in_rng 48 57 c then digits_val r (acc * 10 + Z.of_N (c - 48)%N) else None
+  | c :: r => if in_rng 48 57 c
+              then let acc' := acc * 10 + Z.of_N (c - 48)%N in
+                   if acc' >? 18446744073709551615 then Some acc' else scan_uint r acc'
+              else None
   end.
 Definition atoi_go (s : bytes) : Z :=
   let '(negv, ds) := match s with
@@ -443,7 +449,7 @@ Definition atoi_go (s : bytes) : Z :=
                      end in
   match ds with
   | [] => 0
-  | _ => match digits_val ds 0 with
+  | _ => match scan_uint ds 0 with
          | None => 0
          | Some v => if negv then (if v >? 9223372036854775808 then -9223372036854775808 else - v)
                      else (if v >? 9223372036854775807 then 9223372036854775807 else v)
